@@ -121,6 +121,12 @@ func (s *Sink) AddPreV(variant, checker, caseType string, c Case, text string, b
 	s.addCommon(c, b, variant+"\x00"+text, text, nontrivial, vb)
 }
 
+// AddOracleOnly records a case that has no Layer A model (judged by the harness-side oracle only):
+// statistics, cases.jsonl, notes and panics, but no Coq shard.
+func (s *Sink) AddOracleOnly(c Case, key string, b []byte, nontrivial bool) {
+	s.addCommon(c, b, "oracle-only\x00"+key, "", nontrivial, &variantBuf{checker: ""})
+}
+
 func (s *Sink) AddPre(c Case, text string, b []byte, nontrivial bool) {
 	s.addCommon(c, b, text, text, nontrivial, nil)
 }
@@ -170,6 +176,9 @@ func (s *Sink) addCommon(c Case, b []byte, keytext, text string, nontrivial bool
 	}
 	if len(st.Samples) < 3 && nontrivial {
 		st.Samples = append(st.Samples, c)
+	}
+	if vb != nil && vb.checker == "" {
+		return // oracle-only case
 	}
 	if vb != nil {
 		vb.cur = append(vb.cur, text)
@@ -372,6 +381,12 @@ func main() {
 	_ = os.MkdirAll(tmpRoot, 0o777)
 	defer os.RemoveAll(tmpRoot)
 	rng := rand.New(rand.NewSource(*seed))
+	if *prop == "race" {
+		secs := 6
+		fmt.Sscanf(*tier, "%d", &secs)
+		raceMain(secs, *replay)
+		return
+	}
 	if *replay != "" {
 		doReplay(*replay, *out)
 		return
@@ -381,6 +396,8 @@ func main() {
 		genC04(*out, *tier, rng)
 	case "C02", "C10", "C15":
 		genHist(*prop, *out, *tier, rng, "")
+	case "C20":
+		genC20(*out, *tier, rng)
 	case "C07":
 		genC07(*out, *tier, rng)
 	case "C09":
